@@ -13,7 +13,7 @@ E3 = "E3 controlled-scheduler explorer"
 T_REF = "Trusted: the harness reference matcher (frmc-core/src/refsem.rs), rustc, regex-automata's behaviour inside delegates."
 BUILT = {
  "C01": (E1, "bounded-exhaustive enumeration of (pattern, text, offset) executions of the real crate against a reference matcher",
-         "Every pattern of EXH(k) and of the context x filler product, every text over the alphabet up to the length bound and every start offset is executed on the real crate and compared with the reference ordered-backtracking matcher (atomic look-arounds); the verdict is 'no execution in this finite space diverges'. Plus sweeps that are exhaustive in one parameter the grammar keeps tiny: long regular texts (tall), and every repeat bound N up to 1100 / 4200 in delegated, VM-interpreted, look-behind and nullable-body forms with closed-form oracles. Nothing is claimed beyond the bounds.",
+         "Every pattern of EXH(k) and of the context x filler product, every text over the alphabet up to the length bound and every start offset is executed on the real crate and compared with the reference ordered-backtracking matcher (atomic look-arounds); the verdict is 'no execution in this finite space diverges'. Plus sweeps that are exhaustive in one parameter the grammar keeps tiny: long regular texts (tall), and every repeat bound N up to 1100 / 4200 in delegated, VM-interpreted, look-behind and nullable-body forms with closed-form oracles. Plus a case-insensitive sweep: the engine runs (?i)P, the reference P with every letter as the class of both cases. Nothing is claimed beyond the bounds.",
          T_REF + " Cases in which the reference takes an empty optional iteration of an unbounded repeat (class F1) are outside its domain (skipped, counted).", "DESIGN.md §5 C01"),
  "C02": (E1, "bounded-exhaustive enumeration of executions against a reference matcher (capture groups of the winning path)",
          "Same finite space as C01 restricted to patterns with groups; whenever both sides match with the same span every capture group and the number of groups are compared with the reference's winning path. Plus the wide sweep: k = 4..32 empty groups inserted in front of every group of every pattern (many slots in one backtrack frame), original groups must keep their results.",
@@ -37,19 +37,19 @@ BUILT = {
          "Every pattern (\\G and \\K at every position) x all texts: the real Matches iterator is driven to None and beyond; invariants on every history, equality with the iteration model over the reference matcher (or over the crate's own find_from_pos for class F1), error histories via backtrack limits 0,1,2; the iterator's internal state (last_end,last_match) is read from its Debug output after every call.",
          "Trusted: iteration model (frmc-core/src/itermodel.rs) and reference matcher.", "DESIGN.md §5 C08"),
  "C09": (E1, "bounded-exhaustive enumeration; mutual consistency of the entry points on every (pattern, text, offset)",
-         "Every pattern of the unrestricted space x texts x offsets: is_match <=> find <=> captures, captures.get(0) == find, captures_iter spans == find_iter spans in order; also on long regular texts of 32+ bytes (tall pass); no reference model involved.",
+         "Every pattern of the unrestricted space x texts x offsets: is_match <=> find <=> captures, captures.get(0) == find, captures_iter spans == find_iter spans in order; also on long regular texts of 32+ bytes (tall pass); every captures_iter item equals, group by group, a fresh search from the item's start; no reference model involved.",
          "None beyond rustc.", "DESIGN.md §5 C09"),
  "C10": (E1, "bounded-exhaustive enumeration of split/splitn histories (limits 0..5, polled past the end) against a model over the crate's own find_iter",
-         "Every pattern x all texts x limits 0..5: pieces are the gaps between consecutive find_iter matches, interleaving rebuilds the input, splitn yields min(n, pieces) items with the untouched remainder last; fusedness checked. Texts include 3- and 4-byte characters.",
+         "Every pattern x all texts x limits 0..5: pieces are the gaps between consecutive find_iter matches, interleaving rebuilds the input, splitn yields min(n, pieces) items with the untouched remainder last; fusedness checked. Texts include 3- and 4-byte characters. Error histories under backtrack limits 0-2: split keeps one more piece than matches, exactly one Err.",
          "Oracle: split/splitn model over the crate's own find_iter (which C08 checks).", "DESIGN.md §5 C10"),
  "C11": (E1, "bounded-exhaustive enumeration of (pattern, text, limit, replacer) against a replacement model and a reference template expander",
-         "Every pattern x texts x limits 0..3 x replacers (templates as &str/&String/Cow, NoExpand, closures): result equals the model (first n matches replaced by the reference expansion, other bytes copied), Borrowed iff no match, fast path == slow path, errors are Err not panics.",
+         "Every pattern x texts x limits 0..3 x replacers (templates as &str/&String/Cow, NoExpand, closures): result equals the model (first n matches replaced by the reference expansion, other bytes copied), Borrowed iff no match, fast path == slow path, a limit error of any search is returned as Err (never swallowed), errors are Err not panics.",
          "Oracle: replacen model over the crate's own captures_iter; reference expander written from the documentation.", "DESIGN.md §5 C11"),
  "C12": (E1, "exhaustive enumeration of all templates up to a length bound x capture sets x expanders x entry points against a reference expander",
-         "All templates up to length 5 (quick) / 7 (thorough, 1.1e8) over a 14-character alphabet x 4 capture sets x both expanders x 5 entry points (which must agree) against an independent implementation of the documented syntax; escape round-trip; check() accepts only valid references.",
+         "All templates up to length 5 (quick) / 7 (thorough, 1.1e8) over a 14-character alphabet x 4 capture sets x both expanders x 5 entry points (which must agree) - write_expansion also into a writer that takes two bytes per call and into a full destination (must be an error) - against an independent implementation of the documented syntax; escape round-trip; check() accepts only valid references.",
          "Oracle: frmc-core/src/expandref.rs, written from the doc comments only.", "DESIGN.md §5 C12"),
  "C13": (E1, "bounded-exhaustive enumeration; every static size fact checked against all lengths the reference matcher observes for that sub-expression over all texts",
-         "Every pattern x every sub-expression: the all-paths span recorder of the reference matcher (over the public Expr tree) yields the set of lengths the node matches on all texts and starts; min_size / const_size (hook H2) must be sound; look-behinds showing two lengths must be rejected with LookBehindNotConst; look-behinds whose constant size is a large count N (every N up to 1100 / 4200) look back exactly N characters; accepted look-behinds are compared with the reference on multi-byte texts.",
+         "Every pattern x every sub-expression: the all-paths span recorder of the reference matcher (over the public Expr tree) yields the set of lengths the node matches on all texts and starts; min_size / const_size (hook H2) must be sound; look-behinds showing two lengths must be rejected with LookBehindNotConst; look-behinds whose constant size is a large count N (every N up to 1100 / 4200) look back exactly N characters; a rejected look-behind stays rejected in hosts where it can never run; accepted look-behinds are compared with the reference on multi-byte texts.",
          "Observation is a lower approximation of 'can match', so the facts check cannot raise a false alarm. The parser-private \\n*$ atom of \\Z is exempt.", "DESIGN.md §5 C13"),
  "C14": (E1, "bounded-exhaustive metamorphic enumeration over builder options",
          "Every mixed-case pattern (inner (?-i:..)/(?i:..) groups, fancy and plain) x texts over {a,A,b,B} x offsets: case_insensitive(true) == (?i) prefix, false == unset, ample limits change nothing; tiny delegate_size_limit must fail fancy hosts whose delegated piece fails as a plain pattern. Option == inline flag is also compared through is_match, find_iter, split and replace; backtrack_limit(usize::MAX) changes nothing; every cased Unicode scalar value under the builder option; all contexts x fillers.",
@@ -58,7 +58,7 @@ BUILT = {
          "Every pattern with a conditional (both forms, at every nesting position up to the node bound, plus conditional contexts x fillers) x all texts x offsets, span and groups against the reference. Run twice: groups numbered, and groups named a, b, ... (names that collide with literals in expression conditions).",
          T_REF, "DESIGN.md §5 C15"),
  "C16": (E1, "bounded-exhaustive enumeration of patterns x group namings x texts; metadata against harness-side group count and name map",
-         "Every pattern of the unrestricted space with every capture group independently unnamed / named x texts x offsets: captures_len, capture_names, Captures::len/iter/get/name consistent with the harness AST, for delegated and VM-compiled patterns alike. get(i) is None for i >= len including the indices at which a slot computation wraps (usize::MAX, 1<<63, ...).",
+         "Every pattern of the unrestricted space with every capture group independently unnamed / named x texts x offsets: captures_len, capture_names, Captures::len/iter/get/name consistent with the harness AST, for delegated and VM-compiled patterns alike. get(i) is None for i >= len including the indices at which a slot computation wraps (usize::MAX, 1<<63, ...). The Captures::iter() protocol is driven through count, nth past the end, skip and size_hint.",
          "None beyond rustc.", "DESIGN.md §5 C16"),
  "C17": (E1, "exhaustive enumeration of all strings up to a length bound over meta-characters and multi-byte characters, alone and in fancy hosts, against str::find",
          "All strings up to length 3 (quick) / 4 (thorough) over the 15 meta-characters plus 10 others, each escaped alone and inside 6 host patterns, searched in a family of texts: span equals str::find of the literal; escape borrows iff nothing needed escaping. Plus 1 065 long strings (ASCII stretch of every length 0..70, a multi-byte character, special characters) and a case-insensitive neighbour host.",
